@@ -2730,6 +2730,9 @@ class Parameters:
             # batch will do so), rather than leaving them queued until
             # some later unrelated assignment.
             self_._BATCH_WATCH = BATCH_WATCH
+            for tp in trigger_params:
+                if tp not in applied:
+                    self_[tp]._mode = 'set-reset'
             try:
                 if not BATCH_WATCH:
                     self_._batch_call_watchers()
